@@ -76,6 +76,7 @@ var (
 	flagReplay  = flag.String("replay", "", "re-run a stored replay file")
 	flagNoEvid  = flag.Bool("no-evidence", false, "do not write the evidence file")
 	flagJobs    = flag.Int("j", 8, "parallel obligations")
+	flagIgnoreKnown = flag.Bool("ignore-known", false, "ignore known_findings.json (self-test: known findings must then be reported as violations)")
 )
 
 func main() {
@@ -137,7 +138,10 @@ func runProp(prop string) int {
 		return 2
 	}
 	var known []KnownFinding
-	readJSON(filepath.Join(*flagVerif, "known_findings.json"), &known)
+	if !*flagIgnoreKnown {
+		readJSON(filepath.Join(*flagVerif, "known_findings.json"), &known)
+	}
+	knownPrinted := map[string]bool{}
 
 	P, err := loadProgram(*flagRepo, *flagVerif, cfg.Packages)
 	if err != nil {
@@ -336,9 +340,14 @@ func runProp(prop string) int {
 		if b.Tier == "thorough" && *flagTier != "thorough" {
 			continue
 		}
-		ok, out, secs := runInjectedTest(P, filepath.Join(*flagVerif, "bounded", prop, b.File), b.PkgDir, b.Run, false, 600)
-		bounded = append(bounded, map[string]any{"name": b.Name, "bound": b.Bound, "passed": ok, "seconds": secs})
-		if !ok {
+		status, out, secs := runInjectedTest(P, filepath.Join(*flagVerif, "bounded", prop, b.File), b.PkgDir, b.Run, false, 600)
+		bounded = append(bounded, map[string]any{"name": b.Name, "bound": b.Bound, "result": status, "seconds": secs})
+		if status == "error" {
+			// the stand-in does not build against the current tree (e.g. a renamed function): undecided, not a violation
+			fmt.Printf("UNDECIDED bounded stand-in %s does not run on this tree\n", b.Name)
+			rr.undecided = append(rr.undecided, "bounded stand-in "+b.Name+": "+truncate(out, 400))
+		}
+		if status == "fail" {
 			boundedViol++
 			rp := writeReplayFile(prop, "bounded."+b.Name, "bounded stand-in "+b.Name+" failed (bound: "+b.Bound+")\n\n"+out)
 			if kf := matchKnown(known, prop, "bounded."+b.Name); kf != nil {
@@ -378,7 +387,10 @@ func runProp(prop string) int {
 					inside = r2.Result == "unsat"
 				}
 				if inside {
-					fmt.Printf("KNOWN-FINDING: property=%s %s [obligation %s]\n", prop, kf.What, name)
+					if !knownPrinted[kf.What] {
+						knownPrinted[kf.What] = true
+						fmt.Printf("KNOWN-FINDING: property=%s %s [obligation %s]\n", prop, kf.What, name)
+					}
 					knownHit = append(knownHit, name)
 					rep["known_finding"] = kf.What
 					o.Known = kf.What
